@@ -8,6 +8,7 @@ import Driver.CmdMisc
 import Driver.CmdMatch
 import Driver.CmdSize
 import Driver.CmdRun
+import Driver.CmdAnalyse
 /-! Command table of the replay driver (model instantiated at `Float`). -/
 namespace Driver
 open RQ.F
@@ -63,6 +64,9 @@ def dispatch (toks : List String) : String :=
   | some r => r
   | none =>
   match cmdRun toks with
+  | some r => r
+  | none =>
+  match cmdAnalyse toks with
   | some r => r
   | none => "ERR unknown-command"
 
